@@ -1630,6 +1630,26 @@ func (i valueImporter) importPublicKey(
 				)
 			}
 
+			// The array was imported with the declared type of the field,
+			// which does not say anything about its elements:
+			// ensure it is a byte array, the public key is constructed (and validated) from it below.
+			isByteArray := true
+			arrayValue.Iterate(
+				i.context,
+				func(element interpreter.Value) (resume bool) {
+					_, isByteArray = element.(interpreter.UInt8Value)
+					return isByteArray
+				},
+				false,
+			)
+			if !isByteArray {
+				return nil, errors.NewDefaultUserError(
+					"cannot import value of type '%s'. invalid value for field '%s': not a byte array",
+					ty,
+					field.Name,
+				)
+			}
+
 			publicKeyValue = arrayValue
 
 		case sema.PublicKeyTypeSignatureAlgorithmFieldName:
